@@ -33,6 +33,7 @@ THEOREMS = [
     "Typedpy.C07.deser_aggregate_shape",
     "Typedpy.C07.sync_in_region",
     "Typedpy.C07.mapper_round_trip_region",
+    "Typedpy.C07.step_ok_of_plain",
     "Typedpy.C07.region_example",
     "Typedpy.C07.region_all_dict_example",
     "Typedpy.C07.region_nested_entry_example",
